@@ -36,6 +36,11 @@ pub enum AN {
     Lit(i8),
     Ar(u8, Box<AN>, Box<AN>),
     Neg(Box<AN>),
+    /// ABS / ROUND / FLOOR / CEIL
+    Fn1(u8, Box<AN>),
+    Len(Box<AT>),
+    Coalesce(Box<AN>, Box<AN>),
+    NullIf(Box<AN>, Box<AN>),
 }
 
 #[derive(Clone, Debug, Serialize, Deserialize, Hash)]
@@ -43,6 +48,9 @@ pub enum AT {
     Col(u16),
     Lit(u8),
     Cat(Box<AT>, Box<AT>),
+    Upper(Box<AT>),
+    Lower(Box<AT>),
+    Coalesce(Box<AT>, Box<AT>),
 }
 
 #[derive(Clone, Debug, Serialize, Deserialize, Hash)]
@@ -160,6 +168,16 @@ fn res_n(a: &AN, sc: &Scope) -> E {
             E::Arith(op, Box::new(res_n(x, sc)), Box::new(rhs))
         }
         AN::Neg(x) => E::Neg(Box::new(res_n(x, sc))),
+        AN::Fn1(f, x) => E::Func([FnKind::Abs, FnKind::Round, FnKind::Floor, FnKind::Ceil][*f as usize % 4], vec![res_n(x, sc)]),
+        AN::Len(x) => E::Func(FnKind::Length, vec![res_t(x, sc)]),
+        AN::Coalesce(x, y) | AN::NullIf(x, y) => {
+            // both arguments of one static numeric class (the result type of a mixed COALESCE is the engine's
+            // choice; the dynamically typed model cannot mirror it)
+            let ty_of = |t: u8, c: u8| sc.iter().find(|(p, ci, _)| *p == t && *ci == c).map(|x| x.2).unwrap_or(Ty::Int);
+            let (ex, ey) = (res_n(x, sc), res_n(y, sc));
+            let ey = if ex.is_double(&ty_of) == ey.is_double(&ty_of) { ey } else { ex.clone() };
+            E::Func(if matches!(a, AN::Coalesce(..)) { FnKind::Coalesce } else { FnKind::NullIf }, vec![ex, ey])
+        }
     }
 }
 
@@ -171,6 +189,9 @@ fn res_t(a: &AT, sc: &Scope) -> E {
         },
         AT::Lit(i) => E::Lit(Val::Text(TEXTS[*i as usize % 8].to_string())),
         AT::Cat(x, y) => E::Concat(Box::new(res_t(x, sc)), Box::new(res_t(y, sc))),
+        AT::Upper(x) => E::Func(FnKind::Upper, vec![res_t(x, sc)]),
+        AT::Lower(x) => E::Func(FnKind::Lower, vec![res_t(x, sc)]),
+        AT::Coalesce(x, y) => E::Func(FnKind::Coalesce, vec![res_t(x, sc), res_t(y, sc)]),
     }
 }
 
@@ -305,7 +326,18 @@ pub fn resolve_q(q: &AQ, tables: &[TableData]) -> Resolved {
             // integer-valued right-hand sides only (float -> int assignment is a coercion the generator avoids)
             let isc: Scope = sc.iter().filter(|(_, _, ty)| matches!(ty, Ty::Int | Ty::BigInt)).cloned().collect();
             let mut seen = std::collections::BTreeSet::new();
-            let sets: Vec<(u8, E)> = sets.iter().map(|(c, v)| (ints[pick_idx(*c, ints.len())] as u8, res_n(v, &isc))).filter(|(c, _)| seen.insert(*c)).collect();
+            // assigned values stay integer-typed: functions (ABS/ROUND/… return DOUBLE) are left out of SET
+            fn plain(a: &AN) -> AN {
+                match a {
+                    AN::Fn1(_, x) => plain(x),
+                    AN::Len(_) => AN::Lit(1),
+                    AN::Coalesce(x, _) | AN::NullIf(x, _) => plain(x),
+                    AN::Ar(o, x, y) => AN::Ar(*o, Box::new(plain(x)), Box::new(plain(y))),
+                    AN::Neg(x) => AN::Neg(Box::new(plain(x))),
+                    o => o.clone(),
+                }
+            }
+            let sets: Vec<(u8, E)> = sets.iter().map(|(c, v)| (ints[pick_idx(*c, ints.len())] as u8, res_n(&plain(v), &isc))).filter(|(c, _)| seen.insert(*c)).collect();
             Resolved::Update { table: t, sets, pred: pred.as_ref().map(|p| res_b(p, &sc)) }
         }
         AQ::Delete { t, pred } => {
@@ -706,7 +738,7 @@ pub fn run_case(c: &QCase) -> CaseOut {
             }
         }
         for t in &tags {
-            if t.starts_with("q.") {
+            if t.starts_with("q.") || t.starts_with("expr.fn") {
                 out.labels.push(t.clone());
             }
         }
@@ -736,12 +768,30 @@ fn check_table(db: &mut Db, t: &TableData, after: &str, tags: &[String]) -> Opti
 
 fn gen_an() -> BoxedStrategy<AN> {
     let leaf = prop_oneof![3 => any::<u16>().prop_map(AN::Col), 2 => any::<i8>().prop_map(AN::Lit)];
-    leaf.prop_recursive(3, 8, 2, |inner| prop_oneof![4 => (0u8..5, inner.clone(), inner.clone()).prop_map(|(o, a, b)| AN::Ar(o, Box::new(a), Box::new(b))), 1 => inner.prop_map(|a| AN::Neg(Box::new(a)))]).boxed()
+    leaf.prop_recursive(3, 8, 2, |inner| {
+        prop_oneof![
+            8 => (0u8..5, inner.clone(), inner.clone()).prop_map(|(o, a, b)| AN::Ar(o, Box::new(a), Box::new(b))),
+            2 => inner.clone().prop_map(|a| AN::Neg(Box::new(a))),
+            2 => (0u8..4, inner.clone()).prop_map(|(f, a)| AN::Fn1(f, Box::new(a))),
+            1 => gen_at().prop_map(|a| AN::Len(Box::new(a))),
+            1 => (inner.clone(), inner.clone()).prop_map(|(a, b)| AN::Coalesce(Box::new(a), Box::new(b))),
+            1 => (inner.clone(), inner).prop_map(|(a, b)| AN::NullIf(Box::new(a), Box::new(b))),
+        ]
+    })
+    .boxed()
 }
 
 fn gen_at() -> BoxedStrategy<AT> {
     let leaf = prop_oneof![3 => any::<u16>().prop_map(AT::Col), 2 => any::<u8>().prop_map(AT::Lit)];
-    leaf.prop_recursive(2, 4, 2, |inner| (inner.clone(), inner).prop_map(|(a, b)| AT::Cat(Box::new(a), Box::new(b)))).boxed()
+    leaf.prop_recursive(2, 4, 2, |inner| {
+        prop_oneof![
+            4 => (inner.clone(), inner.clone()).prop_map(|(a, b)| AT::Cat(Box::new(a), Box::new(b))),
+            1 => inner.clone().prop_map(|a| AT::Upper(Box::new(a))),
+            1 => inner.clone().prop_map(|a| AT::Lower(Box::new(a))),
+            1 => (inner.clone(), inner).prop_map(|(a, b)| AT::Coalesce(Box::new(a), Box::new(b))),
+        ]
+    })
+    .boxed()
 }
 
 pub fn gen_ab() -> BoxedStrategy<AB> {
@@ -807,6 +857,23 @@ fn an_variants(a: &AN) -> Vec<AN> {
             v.extend(an_variants(x).into_iter().map(|y| AN::Neg(Box::new(y))));
             v
         }
+        AN::Fn1(f, x) => {
+            let mut v = vec![(**x).clone()];
+            v.extend(an_variants(x).into_iter().map(|y| AN::Fn1(*f, Box::new(y))));
+            v
+        }
+        AN::Len(x) => {
+            let mut v = vec![AN::Lit(1)];
+            v.extend(at_variants(x).into_iter().map(|y| AN::Len(Box::new(y))));
+            v
+        }
+        AN::Coalesce(x, y) | AN::NullIf(x, y) => {
+            let mk = |p: AN, q: AN| if matches!(a, AN::Coalesce(..)) { AN::Coalesce(Box::new(p), Box::new(q)) } else { AN::NullIf(Box::new(p), Box::new(q)) };
+            let mut v = vec![(**x).clone(), (**y).clone()];
+            v.extend(an_variants(x).into_iter().map(|z| mk(z, (**y).clone())));
+            v.extend(an_variants(y).into_iter().map(|z| mk((**x).clone(), z)));
+            v
+        }
         AN::Ar(o, x, y) => {
             let mut v = vec![(**x).clone(), (**y).clone()];
             v.extend(an_variants(x).into_iter().map(|z| AN::Ar(*o, Box::new(z), y.clone())));
@@ -820,6 +887,18 @@ fn at_variants(a: &AT) -> Vec<AT> {
     match a {
         AT::Col(_) => vec![AT::Lit(1)],
         AT::Lit(_) => vec![],
+        AT::Upper(x) | AT::Lower(x) => {
+            let mut v = vec![(**x).clone()];
+            let up = matches!(a, AT::Upper(_));
+            v.extend(at_variants(x).into_iter().map(|y| if up { AT::Upper(Box::new(y)) } else { AT::Lower(Box::new(y)) }));
+            v
+        }
+        AT::Coalesce(x, y) => {
+            let mut v = vec![(**x).clone(), (**y).clone()];
+            v.extend(at_variants(x).into_iter().map(|z| AT::Coalesce(Box::new(z), y.clone())));
+            v.extend(at_variants(y).into_iter().map(|z| AT::Coalesce(x.clone(), Box::new(z))));
+            v
+        }
         AT::Cat(x, y) => {
             let mut v = vec![(**x).clone(), (**y).clone()];
             v.extend(at_variants(x).into_iter().map(|z| AT::Cat(Box::new(z), y.clone())));
